@@ -211,3 +211,7 @@ PROPS["C20"]["parts"] += [dict(pkg="ztestprop", fuzz="FuzzC20Diff", test="FuzzC2
 PROPS["C20"]["rule"] += "; thorough tier adds 2 x 60 s of Go native coverage-guided fuzzing of the same generators/oracles through rapid.MakeFuzz"
 PROPS["C16"]["parts"] += [dict(pkg="e3", fuzz="FuzzC16", test="FuzzC16", replay_test="TestReplayC16", single=True, tiers=["thorough"], fuzztime="60s")]
 PROPS["C16"]["rule"] += "; thorough tier adds 60 s of Go native coverage-guided fuzzing over (op, probe, name, old name)"
+
+_parts("C02", dict(pkg="props", test="TestC02Umount", checks_scale=0.15))
+PROPS["C02"]["rule"] += ("; plus unmount cases (a tmpfs mounted on a directory, the mount point and entries inside watched, activity, umount - possibly with the reader parked): IN_UNMOUNT/IN_IGNORED must not surface, "
+                         "the watches end, nothing is reported for the directory underneath, re-Add works, kernel marks match the model; the part is skipped and reported as skipped where mount(2) is not permitted")
